@@ -244,10 +244,15 @@ def _replay_extra(tr):
     run_script(tr["cfg"], tr["ops"], DEPARTURE.oracles, "C07")
 
 
+_SILENT = [{"timecode": False, "timing": True, "log": "silent"}, {"timecode": True, "timing": False, "log": "silent"}]
 CHECK = SimCheck(
     "C07", [DEPARTURE, DEPARTURE, DEPARTURE_CLASH, DEPARTURE_PERIODIC],
-    [{"timecode": False, "timing": True, "log": "silent"}, {"timecode": True, "timing": False, "log": "silent"}],
-    RULE, ["logging is silenced and the clock does not advance in this profile, so that every manager-originated frame "
+    {"departure": _SILENT, "departure-clash": _SILENT,
+     "departure-periodic": _SILENT + [{"timecode": False, "timing": True, "log": "debug"}, {"timecode": True, "timing": True, "log": "info"}]},
+    RULE, ["profile 'departure-periodic' only uses oracles that need no prediction of manager-originated traffic (run() alive, "
+           "every connection watched or closed, whole frames, no CLIENT_INFO for a connection after its CLIENT_CLOSED) while the "
+           "clock advances, the manager logs at debug/info level and victims subscribe to the manager's own messages",
+           "in the other profiles logging is silenced and the clock does not advance, so that every manager-originated frame "
            "(ACK, CLIENT_INFO, CLIENT_CLOSED, FAILED_MESSAGE) is predicted by the model and the first failing write to a dead "
            "peer is known exactly",
            "what CLIENT_CLOSED says about a connection refused at connect is not specified; only its port is matched",
